@@ -77,8 +77,12 @@ def check(ctx):
                 for d_ in (1, 2, 3):
                     ai = np.full((v_, d_), corner, dtype=np.int64)
                     of_ = hc.span(ai.astype(float), lb_, ub_)
-                    oi_ = hc.span(ai, lb_, ub_)
                     rp_ = dict(how='span', arr=ai.tolist(), lb=lb_, ub=ub_, dtype='int64')
+                    try:
+                        oi_ = hc.span(ai, lb_, ub_)
+                    except Exception as ex:
+                        C.issue('span-depends-on-dtype', 'oracle', rp_, error=type(ex).__name__ + ': ' + str(ex)[:80])
+                        continue
                     if not np.array_equal(np.asarray(oi_), np.asarray(of_), equal_nan=True):
                         C.issue('span-depends-on-dtype', 'oracle', rp_, integer=np.asarray(oi_).tolist(), floats=np.asarray(of_).tolist())
                     judge(C, np, hc.span, ai.astype(float), lb_, ub_, np.asarray(oi_, dtype=float), rp_)
@@ -116,9 +120,12 @@ def check(ctx):
                 C.issue('span-not-a-function-of-its-arguments', 'oracle', dict(rp, bounds='ndarray'), first=o1.tolist(), second=o2.tolist(), lists=out.tolist())
             # the same point written with whole numbers (unit-box corners as an integer-typed array): the same image
             if np.all((arr == 0) | (arr == 1)):
-                oi = hc.span(arr.astype(np.int64), lb, ub)
-                if not np.array_equal(oi, out, equal_nan=True):
-                    C.issue('span-depends-on-dtype', 'oracle', dict(rp, dtype='int64'), integer=np.asarray(oi).tolist(), floats=out.tolist())
+                try:
+                    oi = hc.span(arr.astype(np.int64), lb, ub)
+                    if not np.array_equal(oi, out, equal_nan=True):
+                        C.issue('span-depends-on-dtype', 'oracle', dict(rp, dtype='int64'), integer=np.asarray(oi).tolist(), floats=out.tolist())
+                except Exception as ex:
+                    C.issue('span-depends-on-dtype', 'oracle', dict(rp, dtype='int64'), error=type(ex).__name__ + ': ' + str(ex)[:80])
             lines.append(f"n.span {enc_bits(lb)} {enc_bits(ub)} {';'.join(enc_bits(r) for r in arr)}")
             exp.append([fbits(x) for x in out])
             meta.append(rp)
@@ -226,7 +233,10 @@ def replay(prop, payload):
         return (not (np.array_equal(lba, np.array(lb, dtype=float)) and np.array_equal(uba, np.array(ub, dtype=float))
                      and np.array_equal(arr2, arr))) or not np.array_equal(o1, o2, equal_nan=True)
     if payload.get('dtype') == 'int64':
-        oi = hc.span(np.array(payload['arr'], dtype=np.int64), payload['lb'], payload['ub'])
+        try:
+            oi = hc.span(np.array(payload['arr'], dtype=np.int64), payload['lb'], payload['ub'])
+        except Exception:
+            return True
         of_ = hc.span(arr, payload['lb'], payload['ub'])
         return not np.array_equal(np.asarray(oi), np.asarray(of_), equal_nan=True)
     out = hc.span(arr, payload['lb'], payload['ub'])
